@@ -608,6 +608,10 @@ class LibMixin:
             return v.value
         if isinstance(v, InstV) and "_base_value_" in v.attrs:
             return v.attrs["_base_value_"]
+        if isinstance(v, DictV) and not v.may and all(isinstance(k, (str, int, bool)) or k is None for k in v.d):
+            return {k: self.to_native(x, node) for k, x in v.d.items()}
+        if isinstance(v, tuple):
+            return tuple(self.to_native(x, node) for x in v)
         if isinstance(v, Obj):
             self.limit(f"abstract object {v!r} passed to a native library function", node)
         return v
